@@ -202,7 +202,7 @@ theorem normPath_set_ns (p : Path) (n : Name) :
 
 def UniqueKeys (l : List Stored) : Prop := l.Pairwise (fun a b => normPath a.key ≠ normPath b.key)
 
-structure InvE (e : NsEntry) : Prop where
+structure InvE (ex : Name → Prop) (e : NsEntry) : Prop where
   uniq : UniqueKeys e.insts
   pathKey : ∀ s ∈ e.insts, normPath s.path = normPath s.key
   hasKeys : ∀ s ∈ e.insts, ∀ c, findCls e.classes s.key.cls = some c →
@@ -210,15 +210,15 @@ structure InvE (e : NsEntry) : Prop where
   hostNone : ∀ s ∈ e.insts, s.key.host = none
   nsOk : ∀ s ∈ e.insts, s.key.ns.map lower = some (lower e.name)
   instCls : ∀ s ∈ e.insts, lower s.inst.cls = lower s.key.cls
-  localRefs : ∀ s ∈ e.insts, ∀ c, findCls e.classes s.key.cls = some c → c.isAssoc = true →
-    multiNs s.inst.props e.name = []
+  refVals : ∀ s ∈ e.insts, ∀ c, findCls e.classes s.key.cls = some c → c.isAssoc = true →
+    ∀ p ∈ s.inst.props, ∀ m, refNs p.val = some m → m.isEmpty = false → ex m
 
 /-- namespace names are pairwise different (the repository is a NocaseDict) -/
 def NsUnique (r : Repo) : Prop := r.nss.Pairwise (fun a b => lower a.name ≠ lower b.name)
 
 structure Inv (r : Repo) : Prop where
   nsUniq : NsUnique r
-  entries : ∀ e ∈ r.nss, InvE e
+  entries : ∀ e ∈ r.nss, InvE (fun n => (findNs r n).isSome = true) e
 
 theorem findNs_mem {r : Repo} {ns : Name} {e : NsEntry} (h : findNs r ns = some e) :
     e ∈ r.nss ∧ lower e.name = lower ns := by
@@ -349,9 +349,26 @@ theorem noAssoc_setInsts {r : Repo} (h : NoAssoc r) (ns : Name) (f : List Stored
   obtain ⟨e, he, rfl⟩ := mem_setInsts.mp he'
   by_cases hn : nameEq e.name ns = true <;> simp [hn] at hc <;> exact h e he c hc
 
+theorem invE_mono {ex ex' : Name → Prop} {e : NsEntry} (hm : ∀ n, ex n → ex' n) (h : InvE ex e) : InvE ex' e :=
+  ⟨h.uniq, h.pathKey, h.hasKeys, h.hostNone, h.nsOk, h.instCls,
+    fun s hs c hc hca p hp m hmm hne => hm m (h.refVals s hs c hc hca p hp m hmm hne)⟩
+
+theorem findNs_isSome_setInsts (r : Repo) (ns n : Name) (f : List Stored → List Stored) :
+    (findNs (setInsts r ns f) n).isSome = (findNs r n).isSome := by
+  unfold findNs setInsts
+  simp only [List.find?_map]
+  have : ((fun e : NsEntry => nameEq e.name n) ∘ fun e =>
+      if nameEq e.name ns = true then { e with insts := f e.insts } else e) = fun e => nameEq e.name n := by
+    funext e
+    simp only [Function.comp]
+    by_cases h : nameEq e.name ns = true <;> simp [h]
+  rw [this]
+  cases List.find? (fun e => nameEq e.name n) r.nss <;> rfl
+
 /-- an update of the instance list of the entries named `ns` keeps the invariant if it does so entry-wise -/
 theorem inv_setInsts {r : Repo} (h : Inv r) (ns : Name) (f : List Stored → List Stored)
-    (hf : ∀ e ∈ r.nss, nameEq e.name ns = true → InvE e → InvE { e with insts := f e.insts }) :
+    (hf : ∀ e ∈ r.nss, nameEq e.name ns = true → InvE (fun n => (findNs r n).isSome = true) e →
+      InvE (fun n => (findNs r n).isSome = true) { e with insts := f e.insts }) :
     Inv (setInsts r ns f) := by
   refine ⟨?_, ?_⟩
   · unfold NsUnique setInsts
@@ -361,15 +378,18 @@ theorem inv_setInsts {r : Repo} (h : Inv r) (ns : Name) (f : List Stored → Lis
     by_cases ha : nameEq a.name ns = true <;> by_cases hb : nameEq b.name ns = true <;> simp [ha, hb] <;> exact hab
   · intro e' he'
     obtain ⟨e, he, rfl⟩ := mem_setInsts.mp he'
+    have hm : ∀ n, (findNs r n).isSome = true → (findNs (setInsts r ns f) n).isSome = true := by
+      intro n hn; rw [findNs_isSome_setInsts]; exact hn
     by_cases hn : nameEq e.name ns = true
-    · simp only [hn, ↓reduceIte]; exact hf e he hn (h.entries e he)
-    · simp only [hn]; exact h.entries e he
+    · simp only [hn, ↓reduceIte]; exact invE_mono hm (hf e he hn (h.entries e he))
+    · simp only [hn]; exact invE_mono hm (h.entries e he)
 
-theorem invE_delete {e : NsEntry} (h : InvE e) (p : Path) : InvE { e with insts := deleteInst e.insts p } := by
+theorem invE_delete {ex : Name → Prop} {e : NsEntry} (h : InvE ex e) (p : Path) :
+    InvE ex { e with insts := deleteInst e.insts p } := by
   have hm : ∀ s ∈ deleteInst e.insts p, s ∈ e.insts := fun s hs => (List.mem_filter.mp hs).1
   exact ⟨List.Pairwise.filter _ h.uniq, fun s hs => h.pathKey s (hm s hs), fun s hs => h.hasKeys s (hm s hs),
     fun s hs => h.hostNone s (hm s hs), fun s hs => h.nsOk s (hm s hs), fun s hs => h.instCls s (hm s hs),
-    fun s hs => h.localRefs s (hm s hs)⟩
+    fun s hs => h.refVals s (hm s hs)⟩
 
 theorem deleteInst_abs (l : List Stored) (p : Path) :
     (deleteInst l p).map kvOf = (l.map kvOf).filter (fun x => !(x.1 == normPath p)) := by
@@ -439,13 +459,14 @@ theorem newInstancePath_ok {c : Cls} {ps : List PropV} {ns : Name} {path : Path}
   · cases h
   · exact fromInstance_ok h
 
-theorem invE_append {e : NsEntry} (h : InvE e) (path : Path) (i : Inst)
+theorem invE_append {ex : Name → Prop} {e : NsEntry} (h : InvE ex e) (path : Path) (i : Inst)
     (hfresh : lookupInst e.insts path = none) (hhost : path.host = none)
     (hns : path.ns.map lower = some (lower e.name))
     (hk : ∀ c, findCls e.classes path.cls = some c → ∀ d ∈ keyDecls c, (findProp i.props d.name).isSome = true)
     (hic : lower i.cls = lower path.cls)
-    (hloc : ∀ c, findCls e.classes path.cls = some c → c.isAssoc = true → multiNs i.props e.name = []) :
-    InvE { e with insts := e.insts ++ [{ key := path, path := path, inst := i }] } := by
+    (hloc : ∀ c, findCls e.classes path.cls = some c → c.isAssoc = true →
+      ∀ p ∈ i.props, ∀ m, refNs p.val = some m → m.isEmpty = false → ex m) :
+    InvE ex { e with insts := e.insts ++ [{ key := path, path := path, inst := i }] } := by
   have hne := lookupInst_none hfresh
   refine ⟨?_, ?_, ?_, ?_, ?_, ?_, ?_⟩
   · unfold UniqueKeys
@@ -468,7 +489,7 @@ theorem invE_append {e : NsEntry} (h : InvE e) (path : Path) (i : Inst)
   · exact hns
   · exact h.instCls s hs
   · exact hic
-  · exact h.localRefs s hs
+  · exact h.refVals s hs
   · exact hloc
 
 theorem path_eta_of {path : Path} {ns : Name} (h1 : path.host = none) (h2 : path.ns = some ns) :
@@ -646,11 +667,12 @@ theorem replaceInst_abs (l : List Stored) (q p : Path) (hq : normPath q = normPa
   simp only [Function.comp, kvOf, pathEq, hq]
   by_cases h : (normPath s.key == normPath p) = true <;> simp [h]
 
-theorem invE_replace {e : NsEntry} (h : InvE e) (st : Stored) (hst : st ∈ e.insts) (ni : Inst)
+theorem invE_replace {ex : Name → Prop} {e : NsEntry} (h : InvE ex e) (st : Stored) (hst : st ∈ e.insts) (ni : Inst)
     (hcls : ni.cls = st.inst.cls)
     (hprops : ∀ n, (findProp st.inst.props n).isSome = true → (findProp ni.props n).isSome = true)
-    (hloc : ∀ c, findCls e.classes st.key.cls = some c → c.isAssoc = true → multiNs ni.props e.name = []) :
-    InvE { e with insts := replaceInst e.insts st.path st.path ni } := by
+    (hloc : ∀ c, findCls e.classes st.key.cls = some c → c.isAssoc = true →
+      ∀ p ∈ ni.props, ∀ m, refNs p.val = some m → m.isEmpty = false → ex m) :
+    InvE ex { e with insts := replaceInst e.insts st.path st.path ni } := by
   have hpk := h.pathKey st hst
   have hmem : ∀ s' ∈ replaceInst e.insts st.path st.path ni,
       ∃ s ∈ e.insts, s' = (if pathEq s.key st.path then { s with path := st.path, inst := ni } else s) := by
@@ -689,7 +711,7 @@ theorem invE_replace {e : NsEntry} (h : InvE e) (st : Stored) (hst : st ∈ e.in
     have hkk : lower s.key.cls = lower st.key.cls := normPath_eq_cls ((pathEq_iff.mp hc).trans hpk)
     rw [findCls_congr e.classes hkk] at hcl
     exact hloc c hcl hca
-  · simp only [hc]; exact h.localRefs s hs
+  · simp only [hc]; exact h.refVals s hs
 
 theorem sim_modify (r : Repo) (path : Path) (inst : Inst) (pl : Option (List Name)) (hna : NoAssoc r) (hinv : Inv r) :
     normOut (stepModify r path inst pl).2 = (specModify (abs r) path inst pl).2
@@ -1468,28 +1490,402 @@ theorem checkRefsModify_spec (r : Repo) (stored ps : List PropV) (hwf : RefWF ps
         · simp [hne]
   · simp [hr]
 
-/-! ### simulation with association classes (references inside the request namespace) -/
 
-/-- schema condition of the association theorems: defaults of reference properties are NULL -/
-def RefDefaultsNullRepo (r : Repo) : Prop := ∀ e ∈ r.nss, ∀ c ∈ e.classes, RefDefaultsNull c
+/-! ### association instances in several namespaces -/
 
-/-- reference values of a request are paths or NULL and name no other namespace than the request's -/
-def OpLocal (r : Repo) : Op → Prop
-  | .create ns i => RefWF i.props ∧ multiNs i.props (effNs r ns) = []
-  | .modify p i _ => RefWF i.props ∧ multiNs i.props (effNs r p.ns) = []
+/-! ### folds over the target namespaces commute with the abstraction -/
+
+theorem keyIn_of_host_none {path : Path} (hh : path.host = none) (n : Name) :
+    keyIn path n = normPath { path with ns := some n } := by
+  unfold keyIn
+  cases path; simp_all
+
+theorem abs_addAll (path : Path) (i : Inst) (hh : path.host = none) (nsl : List Name) : ∀ r,
+    abs (addAll r path i nsl) = sInsertAll (abs r) path i nsl := by
+  induction nsl with
+  | nil => intro r; rfl
+  | cons n t ih =>
+    intro r
+    simp only [addAll, sInsertAll]
+    rw [ih]
+    congr 1
+    apply abs_setInsts
+    intro l
+    simp [kvOf, keyIn_of_host_none hh]
+
+theorem abs_replaceAll (path q : Path) (i : Inst) (hq : ∀ n, normPath { path with ns := some n } = keyIn q n)
+    (nsl : List Name) : ∀ r,
+    abs (replaceAll r path i nsl) = sReplaceAll (abs r) q i nsl := by
+  induction nsl with
+  | nil => intro r; rfl
+  | cons n t ih =>
+    intro r
+    simp only [replaceAll, sReplaceAll]
+    rw [ih]
+    congr 1
+    apply abs_setInsts
+    intro l
+    rw [replaceInst_abs l _ _ rfl, hq n]
+
+theorem abs_deleteAll (path q : Path) (hq : ∀ n, normPath { path with ns := some n } = keyIn q n)
+    (nsl : List Name) : ∀ r r', deleteAll r path nsl = some r' →
+    abs r' = sDeleteAll (abs r) q nsl := by
+  induction nsl with
+  | nil => intro r r' h; simp [deleteAll] at h; subst h; rfl
+  | cons n t ih =>
+    intro r r' h
+    simp only [deleteAll] at h
+    split at h
+    · cases h
+    · simp only [sDeleteAll]
+      rw [ih _ _ h]
+      congr 1
+      apply abs_setInsts
+      intro l
+      rw [deleteInst_abs, hq n]
+
+theorem deleteAll_isSome (path : Path) (nsl : List Name) : ∀ r, (∀ n ∈ nsl, (findNs r n).isSome = true) →
+    (deleteAll r path nsl).isSome = true := by
+  induction nsl with
+  | nil => intro r _; rfl
+  | cons n t ih =>
+    intro r h
+    simp only [deleteAll]
+    have hn := h n (by simp)
+    cases hf : findNs r n with
+    | none => simp [hf] at hn
+    | some e =>
+      simp only []
+      apply ih
+      intro m hm
+      rw [findNs_isSome_setInsts]
+      exact h m (by simp [hm])
+
+/-! ### the namespaces an association instance names -/
+
+theorem mem_addNs {acc : List Name} {n m : Name} (h : m ∈ addNs acc n) : m ∈ acc ∨ m = n := by
+  unfold addNs at h
+  by_cases hc : acc.any (nameEq · n) = true
+  · simp only [hc, ↓reduceIte] at h; exact Or.inl h
+  · simp only [hc, Bool.false_eq_true, ↓reduceIte, List.mem_append, List.mem_singleton] at h; exact h
+
+theorem mem_foldl_nsStep (t : Name) (ps : List PropV) : ∀ acc m, m ∈ ps.foldl (nsStep t) acc →
+    m ∈ acc ∨ ∃ p ∈ ps, isRef p = true ∧ refNs p.val = some m ∧ nameEq m t = false ∧ m.isEmpty = false := by
+  induction ps with
+  | nil => intro acc m h; exact Or.inl (by simpa using h)
+  | cons p rest ih =>
+    intro acc m h
+    simp only [List.foldl_cons] at h
+    rcases ih _ m h with h1 | ⟨q, hq, h2⟩
+    · unfold nsStep at h1
+      by_cases hr : isRef p = true
+      · simp only [hr, ↓reduceIte] at h1
+        cases hn : refNs p.val with
+        | none => simp only [hn] at h1; exact Or.inl h1
+        | some n =>
+          simp only [hn] at h1
+          by_cases hc : (!n.isEmpty && !nameEq n t) = true
+          · simp only [hc, ↓reduceIte] at h1
+            rcases mem_addNs h1 with h3 | rfl
+            · exact Or.inl h3
+            · simp at hc
+              exact Or.inr ⟨p, by simp, hr, hn, hc.2, by simpa using hc.1⟩
+          · simp only [hc] at h1; exact Or.inl h1
+      · simp only [hr] at h1; exact Or.inl h1
+    · exact Or.inr ⟨q, by simp [hq], h2⟩
+
+theorem mem_multiNs {ps : List PropV} {t m : Name} (h : m ∈ multiNs ps t) :
+    ∃ p ∈ ps, isRef p = true ∧ refNs p.val = some m ∧ nameEq m t = false ∧ m.isEmpty = false := by
+  rw [multiNs_eq_foldl] at h
+  rcases mem_foldl_nsStep t ps [] m h with h1 | h1
+  · simp at h1
+  · exact h1
+
+/-- names pairwise different up to case -/
+def NamesDistinct (l : List Name) : Prop := l.Pairwise (fun a b => lower a ≠ lower b)
+
+theorem namesDistinct_addNs {acc : List Name} (h : NamesDistinct acc) (n : Name) : NamesDistinct (addNs acc n) := by
+  unfold addNs
+  by_cases hc : acc.any (nameEq · n) = true
+  · simp only [hc, ↓reduceIte]; exact h
+  · simp only [hc, Bool.false_eq_true, ↓reduceIte]
+    unfold NamesDistinct
+    rw [List.pairwise_append]
+    refine ⟨h, by simp, ?_⟩
+    intro a ha b hb
+    simp at hb; subst hb
+    intro e
+    apply hc
+    exact List.any_eq_true.mpr ⟨a, ha, nameEq_iff.mpr e⟩
+
+theorem namesDistinct_foldl (t : Name) (ps : List PropV) : ∀ acc, NamesDistinct acc →
+    NamesDistinct (ps.foldl (nsStep t) acc) := by
+  induction ps with
+  | nil => intro acc h; exact h
+  | cons p rest ih =>
+    intro acc h
+    simp only [List.foldl_cons]
+    apply ih
+    unfold nsStep
+    by_cases hr : isRef p = true
+    · simp only [hr, ↓reduceIte]
+      cases refNs p.val with
+      | none => exact h
+      | some n =>
+        simp only []
+        by_cases hc : (!n.isEmpty && !nameEq n t) = true
+        · simp only [hc, ↓reduceIte]; exact namesDistinct_addNs h n
+        · simp only [hc]; exact h
+    · simp only [hr]; exact h
+
+theorem namesDistinct_multiNs (ps : List PropV) (t : Name) : NamesDistinct (multiNs ps t) := by
+  rw [multiNs_eq_foldl]; exact namesDistinct_foldl t ps [] List.Pairwise.nil
+
+/-- the targets of an instance: pairwise different namespaces -/
+theorem namesDistinct_targets (ps : List PropV) (t : Name) : NamesDistinct (multiNs ps t ++ [t]) := by
+  unfold NamesDistinct
+  rw [List.pairwise_append]
+  refine ⟨namesDistinct_multiNs ps t, by simp, ?_⟩
+  intro a ha b hb
+  simp at hb; subst hb
+  obtain ⟨_, _, _, _, hne, _⟩ := mem_multiNs ha
+  intro e
+  rw [nameEq_iff.mpr e] at hne; cases hne
+
+/-- a validated end point names an existing namespace -/
+theorem checkEndpoint_ns {r : Repo} {q : Path0} (h : checkEndpoint r (.one (.ref q)) = none) {n : Name}
+    (hn : q.ns = some n) : (findNs r n).isSome = true := by
+  obtain ⟨qc, qn, qh, qk⟩ := q
+  simp only at hn; subst hn
+  cases hf : findNs r n with
+  | some e => rfl
+  | none =>
+    exfalso
+    unfold checkEndpoint at h
+    simp only [hf] at h
+    cases qh with
+    | none => simp at h
+    | some hh => by_cases hc : hh.isEmpty = true <;> simp [hc] at h
+
+theorem firstErr_none {α} {f : α → Option PyExc} {l : List α} (h : firstErr f l = none) : ∀ x ∈ l, f x = none := by
+  induction l with
+  | nil => intro x hx; simp at hx
+  | cons a t ih =>
+    intro x hx
+    simp only [firstErr] at h
+    cases ha : f a with
+    | some e => simp [ha] at h
+    | none =>
+      simp only [ha] at h
+      rcases List.mem_cons.mp hx with rfl | hx'
+      · exact ha
+      · exact ih h x hx'
+
+theorem classIn_spec (r : Repo) (cls : Name) (nsl : List Name) (hex : ∀ n ∈ nsl, (findNs r n).isSome = true) :
+    firstErr (classIn r cls) nsl =
+      if nsl.all (sClassIn (abs r) cls) then none else some (.cimError cimErrInvalidClass) := by
+  apply firstErr_ite
+  intro n hn
+  unfold classIn sClassIn
+  rw [sFindNs_abs]
+  have := hex n hn
+  cases hf : findNs r n with
+  | none => simp [hf] at this
+  | some e =>
+    simp only [Option.map_some]
+    have hc : (absNs e).classes = e.classes := rfl
+    simp only [hc]
+
+/-! ### the same update in several namespaces keeps the invariant -/
+
+/-- apply `g n` to the instance list of namespace `n`, for every `n` of the list -/
+def foldNs (g : Name → List Stored → List Stored) (r : Repo) (nsl : List Name) : Repo :=
+  nsl.foldl (fun r n => setInsts r n (g n)) r
+
+theorem addAll_eq_foldNs (path : Path) (i : Inst) (nsl : List Name) : ∀ r,
+    addAll r path i nsl =
+      foldNs (fun n l => l ++ [{ key := { path with ns := some n }, path := { path with ns := some n }, inst := i }]) r nsl := by
+  induction nsl with
+  | nil => intro r; rfl
+  | cons n t ih => intro r; simp only [addAll, foldNs, List.foldl_cons]; exact ih _
+
+theorem replaceAll_eq_foldNs (path : Path) (i : Inst) (nsl : List Name) : ∀ r,
+    replaceAll r path i nsl =
+      foldNs (fun n l => replaceInst l { path with ns := some n } { path with ns := some n } i) r nsl := by
+  induction nsl with
+  | nil => intro r; rfl
+  | cons n t ih => intro r; simp only [replaceAll, foldNs, List.foldl_cons]; exact ih _
+
+theorem deleteAll_eq_foldNs (path : Path) (nsl : List Name) : ∀ r r', deleteAll r path nsl = some r' →
+    r' = foldNs (fun n l => deleteInst l { path with ns := some n }) r nsl := by
+  induction nsl with
+  | nil => intro r r' h; simp [deleteAll] at h; subst h; rfl
+  | cons n t ih =>
+    intro r r' h
+    simp only [deleteAll] at h
+    split at h
+    · cases h
+    · simp only [foldNs, List.foldl_cons]; exact ih _ _ h
+
+theorem findNs_setInsts_other {r : Repo} {m n : Name} (hne : lower n ≠ lower m) (f : List Stored → List Stored) :
+    findNs (setInsts r m f) n = findNs r n := by
+  rw [findNs_setInsts]
+  cases hf : findNs r n with
+  | none => rfl
+  | some e =>
+    simp only [Option.map_some]
+    have : nameEq e.name m = false := by
+      cases hq : nameEq e.name m with
+      | false => rfl
+      | true => exact absurd ((findNs_mem hf).2.symm.trans (nameEq_iff.mp hq)) hne
+    simp [this]
+
+theorem inv_foldNs (g : Name → List Stored → List Stored) (nsl : List Name) (hd : NamesDistinct nsl) : ∀ r, Inv r →
+    (∀ n ∈ nsl, ∀ e, findNs r n = some e →
+      InvE (fun m => (findNs r m).isSome = true) { e with insts := g n e.insts }) →
+    Inv (foldNs g r nsl) := by
+  induction nsl with
+  | nil => intro r h _; exact h
+  | cons n0 t ih =>
+    intro r hinv hall
+    unfold NamesDistinct at hd
+    rw [List.pairwise_cons] at hd
+    simp only [foldNs, List.foldl_cons]
+    apply ih hd.2
+    · apply inv_setInsts hinv
+      intro e he hn hi
+      cases hf : findNs r n0 with
+      | none =>
+        have := List.find?_eq_none.mp (by unfold findNs at hf; exact hf) e he
+        simp [hn] at this
+      | some e0 =>
+        have : e = e0 := findNs_unique hinv.nsUniq hf he hn
+        subst this
+        exact hall n0 (by simp) e hf
+    · intro n hn e hf
+      have hne : lower n ≠ lower n0 := fun h => hd.1 n hn h.symm
+      rw [findNs_setInsts_other hne] at hf
+      have := hall n (by simp [hn]) e hf
+      exact invE_mono (fun m hm => by rw [findNs_isSome_setInsts]; exact hm) this
+
+/-- replacement of whatever is stored under (the normal form of) `q` by `ni` under path `q` -/
+theorem invE_replace2 {ex : Name → Prop} {e : NsEntry} (h : InvE ex e) (q : Path) (ni : Inst)
+    (hcls : ∀ s ∈ e.insts, normPath s.key = normPath q → lower ni.cls = lower s.key.cls)
+    (hkeys : ∀ s ∈ e.insts, normPath s.key = normPath q → ∀ c, findCls e.classes s.key.cls = some c →
+      ∀ d ∈ keyDecls c, (findProp ni.props d.name).isSome = true)
+    (hrefs : ∀ s ∈ e.insts, normPath s.key = normPath q → ∀ c, findCls e.classes s.key.cls = some c →
+      c.isAssoc = true → ∀ p ∈ ni.props, ∀ m, refNs p.val = some m → m.isEmpty = false → ex m) :
+    InvE ex { e with insts := replaceInst e.insts q q ni } := by
+  have hmem : ∀ s' ∈ replaceInst e.insts q q ni,
+      ∃ s ∈ e.insts, s' = (if pathEq s.key q then { s with path := q, inst := ni } else s) := by
+    intro s' hs'
+    unfold replaceInst at hs'
+    obtain ⟨s, hs, rfl⟩ := List.mem_map.mp hs'
+    exact ⟨s, hs, rfl⟩
+  refine ⟨?_, ?_, ?_, ?_, ?_, ?_, ?_⟩
+  · unfold UniqueKeys replaceInst
+    rw [List.pairwise_map]
+    refine List.Pairwise.imp ?_ h.uniq
+    intro a b hab
+    by_cases ha : pathEq a.key q = true <;> by_cases hb : pathEq b.key q = true <;> simp [ha, hb] <;> exact hab
+  all_goals
+    intro s' hs'
+    obtain ⟨s, hs, rfl⟩ := hmem s' hs'
+    by_cases hc : pathEq s.key q = true
+  · simp only [hc, ↓reduceIte]; exact (pathEq_iff.mp hc).symm
+  · simp only [hc]; exact h.pathKey s hs
+  · simp only [hc, ↓reduceIte]; exact hkeys s hs (pathEq_iff.mp hc)
+  · simp only [hc]; exact h.hasKeys s hs
+  · simp only [hc, ↓reduceIte]; exact h.hostNone s hs
+  · simp only [hc]; exact h.hostNone s hs
+  · simp only [hc, ↓reduceIte]; exact h.nsOk s hs
+  · simp only [hc]; exact h.nsOk s hs
+  · simp only [hc, ↓reduceIte]; exact hcls s hs (pathEq_iff.mp hc)
+  · simp only [hc]; exact h.instCls s hs
+  · simp only [hc, ↓reduceIte]; exact hrefs s hs (pathEq_iff.mp hc)
+  · simp only [hc]; exact h.refVals s hs
+
+/-! ### hypotheses of the refinement theorems -/
+
+/-- schema condition: defaults of reference properties are NULL -/
+def RefDefaultsNullRepo (r : Repo) : Prop :=
+  ∀ e ∈ r.nss, ∀ c ∈ e.classes, RefDefaultsNull c ∧ ∀ d ∈ c.props, ∀ q, d.dflt ≠ .one (.ref q)
+
+/-- a class name denotes the same class in every namespace that has it (the namespaces were loaded from the
+    same schema; needed only for association instances that live in several namespaces) -/
+def SchemaCoherent (r : Repo) : Prop :=
+  ∀ e1 ∈ r.nss, ∀ e2 ∈ r.nss, ∀ n c1 c2, findCls e1.classes n = some c1 → findCls e2.classes n = some c2 → c1 = c2
+
+/-- reference-typed properties of a request hold paths or NULL -/
+def PropsWF (ps : List PropV) : Prop :=
+  RefWF ps ∧ ∀ p ∈ ps, (∃ q, p.val = .one (.ref q)) → isRef p = true
+
+def OpWF : Op → Prop
+  | .create _ i => PropsWF i.props
+  | .modify _ i _ => PropsWF i.props
   | _ => True
 
-/-- hypothesis of the partial theorems for one request: no association classes at all, or associations whose
-    reference values stay inside the request namespace -/
-def Tame (r : Repo) (op : Op) : Prop := NoAssoc r ∨ (RefDefaultsNullRepo r ∧ OpLocal r op)
+/-- hypothesis of the refinement theorems for one request: no association classes at all (arbitrary requests), or
+    a coherent schema with NULL reference defaults and well-formed reference values -/
+def Tame (r : Repo) (op : Op) : Prop :=
+  NoAssoc r ∨ (RefDefaultsNullRepo r ∧ SchemaCoherent r ∧ OpWF op)
 
-theorem refDefaults_setInsts {r : Repo} (h : RefDefaultsNullRepo r) (ns : Name) (f : List Stored → List Stored) :
-    RefDefaultsNullRepo (setInsts r ns f) := by
-  intro e' he' c hc
-  obtain ⟨e, he, rfl⟩ := mem_setInsts.mp he'
-  by_cases hn : nameEq e.name ns = true <;> simp [hn] at hc <;> exact h e he c hc
+theorem nsStep_congr {a b : Name} (h : lower a = lower b) : nsStep a = nsStep b := by
+  funext acc p
+  unfold nsStep
+  cases refNs p.val with
+  | none => rfl
+  | some n => simp [nameEq_congr_right h n]
 
-theorem sim_delete' (r : Repo) (path : Path) (ht : Tame r (.delete path)) (hinv : Inv r) :
+theorem multiNs_congr {a b : Name} (h : lower a = lower b) (ps : List PropV) : multiNs ps a = multiNs ps b := by
+  rw [multiNs_eq_foldl, multiNs_eq_foldl, nsStep_congr h]
+
+theorem delete_tail (r : Repo) (hinv : Inv r) (path : Path) (ns : Name) (e : NsEntry) (hns : findNs r ns = some e)
+    (others : List Name) (hex : ∀ n ∈ others, (findNs r n).isSome = true)
+    (hdist : NamesDistinct (others ++ [ns])) :
+    normOut (if others.isEmpty = true then
+        (setInsts r ns (fun l => deleteInst l (reqPath ns path)), Out.unit)
+      else match deleteAll r (reqPath ns path) (others ++ [ns]) with
+        | some r' => (r', Out.unit)
+        | none => (r, Out.err PyExc.keyError)).2 = Out.unit ∧
+    abs (if others.isEmpty = true then
+        (setInsts r ns (fun l => deleteInst l (reqPath ns path)), Out.unit)
+      else match deleteAll r (reqPath ns path) (others ++ [ns]) with
+        | some r' => (r', Out.unit)
+        | none => (r, Out.err PyExc.keyError)).1 = sDeleteAll (abs r) path (others ++ [ns]) ∧
+    Inv (if others.isEmpty = true then
+        (setInsts r ns (fun l => deleteInst l (reqPath ns path)), Out.unit)
+      else match deleteAll r (reqPath ns path) (others ++ [ns]) with
+        | some r' => (r', Out.unit)
+        | none => (r, Out.err PyExc.keyError)).1 := by
+  have hq : ∀ n, normPath { reqPath ns path with ns := some n } = keyIn path n := fun n => rfl
+  by_cases hemp : others.isEmpty = true
+  · have : others = [] := by simpa using hemp
+    subst this
+    simp only [List.isEmpty_nil, ↓reduceIte, List.nil_append, sDeleteAll, normOut, true_and]
+    refine ⟨?_, ?_⟩
+    · apply abs_setInsts
+      intro l
+      rw [deleteInst_abs, keyIn_eq]
+    · exact inv_setInsts hinv _ _ (fun e' _ _ h' => invE_delete h' _)
+  · simp only [hemp, Bool.false_eq_true, ↓reduceIte]
+    have hex' : ∀ n ∈ others ++ [ns], (findNs r n).isSome = true := by
+      intro n hn
+      rcases List.mem_append.mp hn with h1 | h1
+      · exact hex n h1
+      · simp at h1; subst h1; simp [hns]
+    have hsome := deleteAll_isSome (reqPath ns path) _ r hex'
+    cases hda : deleteAll r (reqPath ns path) (others ++ [ns]) with
+    | none => simp [hda] at hsome
+    | some r' =>
+      simp only [normOut, true_and]
+      refine ⟨abs_deleteAll _ path hq _ _ _ hda, ?_⟩
+      rw [deleteAll_eq_foldNs _ _ _ _ hda]
+      apply inv_foldNs _ _ hdist r hinv
+      intro n _ e' he'
+      exact invE_delete (hinv.entries e' (findNs_mem he').1) _
+
+theorem sim_delete'' (r : Repo) (path : Path) (hinv : Inv r) :
     normOut (stepDelete r path).2 = (specDelete (abs r) path).2
       ∧ abs (stepDelete r path).1 = (specDelete (abs r) path).1
       ∧ Inv (stepDelete r path).1 := by
@@ -1515,23 +1911,155 @@ theorem sim_delete' (r : Repo) (path : Path) (ht : Tame r (.delete path)) (hinv 
         have hmem := findNs_mem hns
         have hie := hinv.entries e hmem.1
         have ⟨hst, hstk⟩ := lookupInst_some hl
-        have hoth : (if c.isAssoc then multiNs st.inst.props (path.ns.getD r.dflt) else []) = [] := by
+        have hstc : findCls e.classes st.key.cls = some c := by
+          rw [findCls_congr e.classes (normPath_eq_cls hstk)]; exact hcl
+        simp only [Option.map_some, targets]
+        apply delete_tail r hinv path _ e hns
+        · intro n hn
           by_cases hca : c.isAssoc = true
-          · simp only [hca, ↓reduceIte]
-            rw [multiNs_nil_congr hmem.2.symm]
-            refine hie.localRefs st hst c ?_ hca
-            rw [findCls_congr e.classes (normPath_eq_cls hstk)]; exact hcl
-          · simp [hca]
-        have htg : targets c.isAssoc st.inst.props (path.ns.getD r.dflt) = [path.ns.getD r.dflt] := by
-          unfold targets; rw [hoth]; rfl
-        simp only [Option.map_some, hoth, htg, List.isEmpty_nil, ↓reduceIte, sDeleteAll, normOut, true_and]
-        refine ⟨?_, ?_⟩
-        · apply abs_setInsts
-          intro l
-          rw [deleteInst_abs, keyIn_eq]
-        · exact inv_setInsts hinv _ _ (fun e' _ _ h' => invE_delete h' _)
+          · simp only [hca, ↓reduceIte] at hn
+            obtain ⟨p, hp, _, hm, _, hne⟩ := mem_multiNs hn
+            exact hie.refVals st hst c hstc hca p hp n hm hne
+          · simp [hca] at hn
+        · by_cases hca : c.isAssoc = true
+          · simp only [hca, ↓reduceIte]; exact namesDistinct_targets _ _
+          · simp [hca, NamesDistinct]
 
-theorem sim_create' (r : Repo) (nsArg : Option Name) (inst : Inst) (ht : Tame r (.create nsArg inst)) (hinv : Inv r) :
+theorem refs_exist {r : Repo} {ps : List PropV} (hc : checkRefsCreate r ps = none) (hwf : RefWF ps)
+    (hvw : ∀ p ∈ ps, (∃ q, p.val = .one (.ref q)) → isRef p = true)
+    (p : PropV) (hp : p ∈ ps) (m : Name) (hn : refNs p.val = some m) : (findNs r m).isSome = true := by
+  have hq : ∃ q, p.val = .one (.ref q) := by
+    cases hv : p.val with
+    | null => simp [hv, refNs] at hn
+    | arr _ => simp [hv, refNs] at hn
+    | emb _ _ _ => simp [hv, refNs] at hn
+    | one k =>
+      cases k with
+      | sc _ => simp [hv, refNs] at hn
+      | ref q => exact ⟨q, rfl⟩
+  have hr := hvw p hp hq
+  obtain ⟨q, hv⟩ := hq
+  have hf := firstErr_none (by unfold checkRefsCreate at hc; exact hc) p hp
+  simp only [hr, ↓reduceIte] at hf
+  rw [hv] at hn hf
+  simp only [refNs] at hn
+  exact checkEndpoint_ns hf hn
+
+theorem exists_of_mem_multiNs {r : Repo} {ps : List PropV}
+    (h : ∀ p ∈ ps, ∀ m, refNs p.val = some m → m.isEmpty = false → (findNs r m).isSome = true) (t m : Name)
+    (hm : m ∈ multiNs ps t) : (findNs r m).isSome = true := by
+  obtain ⟨p, hp, _, hn, _, hne⟩ := mem_multiNs hm
+  exact h p hp m hn hne
+
+/-- the part of `specCreate` after the validation of properties and end points -/
+def specCreateTail (s : SRepo) (c : Cls) (i : Inst) (ns : Name) (tg : List Name) : SRepo × Out :=
+  if !(tg.all (sClassIn s i.cls)) then (s, errClass)
+  else
+    match newInstancePath c i.props ns with
+    | .error ex => (s, .err ex)
+    | .ok path =>
+      if tg.any (fun n => sExists s n (keyIn path n)) then (s, errExists)
+      else (sInsertAll s path i tg, .path (normPath path))
+
+theorem existsIn_eq_lookup {r : Repo} {n : Name} {e : NsEntry} (h : findNs r n = some e) (p : Path) :
+    existsIn r n p = (lookupInst e.insts p).isSome := by
+  unfold existsIn; rw [h]
+
+theorem create_tail (r : Repo) (hinv : Inv r) (ns : Name) (e : NsEntry) (hns : findNs r ns = some e)
+    (c : Cls) (i : Inst) (hcl : findCls e.classes i.cls = some c)
+    (others : List Name) (hex : ∀ n ∈ others, (findNs r n).isSome = true)
+    (hdist : NamesDistinct (others ++ [ns]))
+    (hsame : ∀ n ∈ others ++ [ns], ∀ e', findNs r n = some e' → ∀ c', findCls e'.classes c.name = some c' → c' = c)
+    (hrefs : c.isAssoc = true → ∀ p ∈ i.props, ∀ m, refNs p.val = some m → m.isEmpty = false →
+      (findNs r m).isSome = true) :
+    let res := if others.isEmpty = true then createSingle r c i ns else createMulti r c i ns others
+    normOut res.2 = (specCreateTail (abs r) c i ns (others ++ [ns])).2 ∧
+    abs res.1 = (specCreateTail (abs r) c i ns (others ++ [ns])).1 ∧ Inv res.1 := by
+  intro res
+  have hmem := findNs_mem hns
+  have hex' : ∀ n ∈ others ++ [ns], (findNs r n).isSome = true := by
+    intro n hn
+    rcases List.mem_append.mp hn with h1 | h1
+    · exact hex n h1
+    · simp at h1; subst h1; simp [hns]
+  -- one description of both branches of the model
+  have hres : res = (match firstErr (classIn r i.cls) (others ++ [ns]) with
+      | some ex => (r, Out.err ex)
+      | none =>
+        match newInstancePath c i.props ns with
+        | .error ex => (r, .err ex)
+        | .ok path =>
+          if (others ++ [ns]).any (fun n => existsIn r n { path with ns := some n }) then (r, errExists)
+          else (addAll r path i (others ++ [ns]), .path path)) := by
+    simp only [res]
+    by_cases hemp : others.isEmpty = true
+    · have : others = [] := by simpa using hemp
+      subst this
+      have hci : classIn r i.cls ns = none := by unfold classIn; rw [hns]; simp [hcl]
+      simp only [List.isEmpty_nil, ↓reduceIte, List.nil_append, firstErr, hci, createSingle]
+      cases hnp : newInstancePath c i.props ns with
+      | error ex => rfl
+      | ok path =>
+        simp only []
+        obtain ⟨hh, hn, _, _⟩ := newInstancePath_ok hnp
+        have hpe : ({ path with ns := some ns } : Path) = path := by cases path; simp_all
+        simp only [List.any_cons, List.any_nil, Bool.or_false, hpe, existsIn_eq_lookup hns, addNew, hns, addAll]
+        cases lookupInst e.insts path <;> simp [errExists]
+    · simp only [hemp, Bool.false_eq_true, ↓reduceIte, createMulti]
+      rfl
+  rw [hres]
+  unfold specCreateTail
+  rw [classIn_spec r i.cls _ hex']
+  by_cases hall : (others ++ [ns]).all (sClassIn (abs r) i.cls) = true
+  · simp only [hall, ↓reduceIte, Bool.not_true, Bool.false_eq_true]
+    cases hnp : newInstancePath c i.props ns with
+    | error ex => simp [normOut, hinv]
+    | ok path =>
+      simp only []
+      obtain ⟨hh, hn, hpc, hkeys⟩ := newInstancePath_ok hnp
+      have hany : (others ++ [ns]).any (fun n => existsIn r n { path with ns := some n }) =
+          (others ++ [ns]).any (fun n => sExists (abs r) n (keyIn path n)) := by
+        congr 1; funext n
+        rw [keyIn_of_host_none hh, sExists_abs]
+      rw [hany]
+      by_cases hexi : (others ++ [ns]).any (fun n => sExists (abs r) n (keyIn path n)) = true
+      · simp [hexi, normOut, errExists, hinv]
+      · simp only [hexi, Bool.false_eq_true, ↓reduceIte, normOut, true_and]
+        refine ⟨abs_addAll path i hh _ r, ?_⟩
+        rw [addAll_eq_foldNs]
+        apply inv_foldNs _ _ hdist r hinv
+        intro n hn e' he'
+        have hfresh : lookupInst e'.insts { path with ns := some n } = none := by
+          have : sExists (abs r) n (keyIn path n) = false := by
+            cases hq : sExists (abs r) n (keyIn path n) with
+            | false => rfl
+            | true => exact absurd (List.any_eq_true.mpr ⟨n, hn, hq⟩) hexi
+          rw [keyIn_of_host_none hh, sExists_abs, existsIn_eq_lookup he'] at this
+          cases hl : lookupInst e'.insts { path with ns := some n } with
+          | none => rfl
+          | some _ => simp [hl] at this
+        apply invE_append (hinv.entries e' (findNs_mem he').1) _ i hfresh hh
+        · simp [(findNs_mem he').2]
+        · intro c' hc'
+          have : c' = c := hsame n hn e' he' c' (by rw [← hpc]; exact hc')
+          subst this; exact hkeys
+        · show lower i.cls = lower path.cls
+          rw [hpc]; exact (findCls_some hcl).2.symm
+        · intro c' hc' hca' p hp m hm hne
+          have : c' = c := hsame n hn e' he' c' (by rw [← hpc]; exact hc')
+          subst this
+          exact hrefs hca' p hp m hm hne
+  · simp [hall, normOut, errClass, hinv]
+
+theorem refWF_adjust {c : Cls} {ps : List PropV} (h : RefWF ps) : RefWF (adjustNames c ps) := by
+  intro p hp hr
+  unfold adjustNames at hp
+  obtain ⟨q, hq, rfl⟩ := List.mem_map.mp hp
+  have hs := adjustName_same c q
+  rw [hs.2.2.2]
+  exact h q hq (by unfold isRef at hr ⊢; rw [← hs.2.1]; exact hr)
+
+theorem sim_create'' (r : Repo) (nsArg : Option Name) (inst : Inst) (ht : Tame r (.create nsArg inst)) (hinv : Inv r) :
     normOut (stepCreate r nsArg inst).2 = (specCreate (abs r) nsArg inst).2
       ∧ abs (stepCreate r nsArg inst).1 = (specCreate (abs r) nsArg inst).1
       ∧ Inv (stepCreate r nsArg inst).1 := by
@@ -1552,88 +2080,330 @@ theorem sim_create' (r : Repo) (nsArg : Option Name) (inst : Inst) (ht : Tame r 
       have hmem := findNs_mem hns
       by_cases hv : (inst.props.all (validProp e.classes c)) = true
       · simp only [hv, Bool.not_true, Bool.false_eq_true, ↓reduceIte]
-        -- the association part: end points validated, no other namespace involved
-        have hassoc : c.isAssoc = true →
-            RefWF (adjustNames c inst.props) ∧ multiNs (adjustNames c inst.props) (nsArg.getD r.dflt) = [] := by
-          intro hca
-          rcases ht with hna | ⟨_, hwf, hloc⟩
-          · have := hna e hmem.1 c (findCls_some hcl).1; rw [this] at hca; cases hca
-          · refine ⟨?_, (multiNs_adjustNames c _ _).mpr hloc⟩
-            intro p hp hr
-            unfold adjustNames at hp
-            obtain ⟨q, hq, rfl⟩ := List.mem_map.mp hp
-            have hs := adjustName_same c q
-            rw [hs.2.2.2]
-            exact hwf q hq (by unfold isRef at hr ⊢; rw [← hs.2.1]; exact hr)
-        have hci : sClassIn (abs r) inst.cls (nsArg.getD r.dflt) = true := by
-          unfold sClassIn; rw [sFindNs_abs, hns]; simp [hc, hcl]
-        -- both sides reduce to the single-namespace creation unless an end point is refused
-        have key : ∀ (hgo : c.isAssoc = false ∨
-              ((adjustNames c inst.props).filter isRef).all (fun p => sEndpointOk (abs r) p.val) = true),
-            normOut (createSingle r c { cls := inst.cls, props := adjustNames c inst.props } (nsArg.getD r.dflt)).2 =
-              (match newInstancePath c (adjustNames c inst.props) (nsArg.getD r.dflt) with
-               | .error ex => ((abs r), Out.err ex)
-               | .ok path =>
-                 if [nsArg.getD r.dflt].any (fun n => sExists (abs r) n (keyIn path n)) then ((abs r), errExists)
-                 else (sInsertAll (abs r) path { cls := inst.cls, props := adjustNames c inst.props } [nsArg.getD r.dflt],
-                       Out.path (normPath path))).2 ∧
-            abs (createSingle r c { cls := inst.cls, props := adjustNames c inst.props } (nsArg.getD r.dflt)).1 =
-              (match newInstancePath c (adjustNames c inst.props) (nsArg.getD r.dflt) with
-               | .error ex => ((abs r), Out.err ex)
-               | .ok path =>
-                 if [nsArg.getD r.dflt].any (fun n => sExists (abs r) n (keyIn path n)) then ((abs r), errExists)
-                 else (sInsertAll (abs r) path { cls := inst.cls, props := adjustNames c inst.props } [nsArg.getD r.dflt],
-                       Out.path (normPath path))).1 ∧
-            Inv (createSingle r c { cls := inst.cls, props := adjustNames c inst.props } (nsArg.getD r.dflt)).1 := by
-          intro _
-          unfold createSingle
-          cases hnp : newInstancePath c (adjustNames c inst.props) (nsArg.getD r.dflt) with
-          | error ex => simp [normOut, hinv]
-          | ok path =>
-            simp only []
-            obtain ⟨hh, hn, hpc, hkeys⟩ := newInstancePath_ok hnp
-            have hk : keyIn path (nsArg.getD r.dflt) = normPath path := by
-              unfold keyIn; rw [path_eta_of hh hn]
-            have hex : sExists (abs r) (nsArg.getD r.dflt) (normPath path) = (lookupInst e.insts path).isSome := by
-              rw [sExists_abs]; unfold existsIn; rw [hns]
-            simp only [List.any_cons, List.any_nil, Bool.or_false, hk, hex, addNew, hns]
-            cases hl : lookupInst e.insts path with
-            | some st => simp [normOut, errExists, hinv]
-            | none =>
-              simp only [Option.isSome_none, Bool.false_eq_true, ↓reduceIte, normOut, sInsertAll, true_and, hk]
-              refine ⟨?_, ?_⟩
-              · apply abs_setInsts
-                intro l
-                simp [kvOf]
-              · apply inv_setInsts hinv
-                intro e' he' hn' hi'
-                have hee : e' = e := findNs_unique hinv.nsUniq hns he' hn'
-                subst hee
-                apply invE_append hi' path _ hl hh
-                · rw [hn]; simp [hmem.2]
-                · intro c' hc'
-                  rw [hpc, findCls_self hcl] at hc'
-                  cases hc'
-                  exact hkeys
-                · rw [hpc]; exact (findCls_some hcl).2.symm
-                · intro c' hc' hca'
-                  rw [hpc, findCls_self hcl] at hc'
-                  cases hc'
-                  exact (multiNs_nil_congr hmem.2.symm _).mp (hassoc hca').2
+        have hself : ∀ e', findNs r (nsArg.getD r.dflt) = some e' → ∀ c', findCls e'.classes c.name = some c' → c' = c := by
+          intro e' he' c' hc'
+          rw [hns] at he'; cases he'
+          rw [findCls_self hcl] at hc'; cases hc'; rfl
         by_cases hca : c.isAssoc = true
-        · obtain ⟨hwf, hloc⟩ := hassoc hca
-          simp only [hca, ↓reduceIte, Bool.true_and, checkRefsCreate_spec r _ hwf]
-          by_cases hep : ((adjustNames c inst.props).filter isRef).all (fun p => sEndpointOk (abs r) p.val) = true
-          · simp only [hep, ↓reduceIte, Bool.not_true, Bool.false_eq_true, hloc, List.isEmpty_nil, targets,
-              List.nil_append, List.all_cons, List.all_nil, Bool.and_true, hci]
-            exact key (Or.inr hep)
-          · simp [hep, normOut, errParam, hinv]
-        · simp only [hca, Bool.false_eq_true, ↓reduceIte, Bool.false_and, targets, List.nil_append, List.all_cons,
-            List.all_nil, Bool.and_true, hci, Bool.not_true]
-          exact key (Or.inl (by simpa using hca))
+        · rcases ht with hna | ⟨_, hcoh, hwf⟩
+          · have := hna e hmem.1 c (findCls_some hcl).1; rw [this] at hca; cases hca
+          · obtain ⟨hwf, hvw⟩ := hwf
+            have hwf' : RefWF (adjustNames c inst.props) := refWF_adjust hwf
+            have hvw' : ∀ p ∈ adjustNames c inst.props, (∃ q, p.val = .one (.ref q)) → isRef p = true := by
+              intro p hp hq
+              unfold adjustNames at hp
+              obtain ⟨p0, hp0, rfl⟩ := List.mem_map.mp hp
+              have hs := adjustName_same c p0
+              rw [hs.2.2.2] at hq
+              have := hvw p0 hp0 hq
+              unfold isRef at this ⊢; rw [hs.2.1]; exact this
+            simp only [hca, ↓reduceIte, Bool.true_and, checkRefsCreate_spec r _ hwf']
+            by_cases hep : ((adjustNames c inst.props).filter isRef).all (fun p => sEndpointOk (abs r) p.val) = true
+            · simp only [hep, ↓reduceIte, Bool.not_true, Bool.false_eq_true, targets]
+              have hcr : checkRefsCreate r (adjustNames c inst.props) = none := by
+                rw [checkRefsCreate_spec r _ hwf', hep]; rfl
+              have := create_tail r hinv (nsArg.getD r.dflt) e hns c
+                { cls := inst.cls, props := adjustNames c inst.props } hcl
+                (multiNs (adjustNames c inst.props) (nsArg.getD r.dflt))
+                (exists_of_mem_multiNs (fun p hp m hm _ => refs_exist hcr hwf' hvw' p hp m hm) _)
+                (namesDistinct_targets _ _)
+                (by
+                  intro n hn e' he' c' hc'
+                  exact (hcoh e hmem.1 e' (findNs_mem he').1 c.name c c' (findCls_self hcl) hc').symm)
+                (fun _ p hp m hm _ => refs_exist hcr hwf' hvw' p hp m hm)
+              simp only [specCreateTail] at this
+              exact this
+            · simp [hep, normOut, errParam, hinv]
+        · have := create_tail r hinv (nsArg.getD r.dflt) e hns c
+            { cls := inst.cls, props := adjustNames c inst.props } hcl [] (by simp)
+            (by simp [NamesDistinct])
+            (by
+              intro n hn e' he' c' hc'
+              simp at hn; subst hn
+              exact hself e' he' c' hc')
+            (fun h => absurd h hca)
+          simp only [hca, Bool.false_eq_true, ↓reduceIte, Bool.false_and, targets, List.nil_append]
+          simp only [specCreateTail, List.nil_append, List.isEmpty_nil, ↓reduceIte] at this
+          exact this
       · simp [hv, normOut, errParam, hinv]
 
-theorem sim_modify' (r : Repo) (path : Path) (inst : Inst) (pl : Option (List Name))
+/-! ### the reference map looks at namespace names up to case only -/
+
+theorem sFindNs_congr (s : SRepo) {a b : Name} (h : lower a = lower b) : sFindNs s a = sFindNs s b := by
+  unfold sFindNs; rw [h]
+
+theorem sSetMap_congr (s : SRepo) {a b : Name} (h : lower a = lower b) (f : List (Path × Inst) → List (Path × Inst)) :
+    sSetMap s a f = sSetMap s b f := by
+  unfold sSetMap; rw [h]
+
+theorem keyIn_congr (p : Path) {a b : Name} (h : lower a = lower b) : keyIn p a = keyIn p b := by
+  unfold keyIn normPath; simp [h]
+
+theorem sClassIn_congr (s : SRepo) (cls : Name) {a b : Name} (h : lower a = lower b) :
+    sClassIn s cls a = sClassIn s cls b := by
+  unfold sClassIn; rw [sFindNs_congr s h]
+
+theorem sExists_congr (s : SRepo) {a b : Name} (h : lower a = lower b) (k : Path) : sExists s a k = sExists s b k := by
+  unfold sExists; rw [sFindNs_congr s h]
+
+theorem sReplaceAll_congr_last (q : Path) (i : Inst) {a b : Name} (h : lower a = lower b) (l : List Name) : ∀ s,
+    sReplaceAll s q i (l ++ [a]) = sReplaceAll s q i (l ++ [b]) := by
+  induction l with
+  | nil => intro s; simp only [List.nil_append, sReplaceAll, keyIn_congr q h, sSetMap_congr s h]
+  | cons n t ih => intro s; simp only [List.cons_append, sReplaceAll]; exact ih _
+
+theorem all_congr_last {α} (f : α → Bool) {a b : α} (h : f a = f b) (l : List α) :
+    (l ++ [a]).all f = (l ++ [b]).all f := by simp [h]
+
+theorem namesDistinct_congr_last {a b : Name} (h : lower a = lower b) {l : List Name}
+    (hd : NamesDistinct (l ++ [a])) : NamesDistinct (l ++ [b]) := by
+  unfold NamesDistinct at hd ⊢
+  rw [List.pairwise_append] at hd ⊢
+  refine ⟨hd.1, by simp, ?_⟩
+  intro x hx y hy
+  simp at hy; subst hy
+  rw [← h]
+  exact hd.2.2 x hx a (by simp)
+
+/-- the part of `specModify` after the validation of properties and end points -/
+def specModifyTail (s : SRepo) (path : Path) (ni : Inst) (tg : List Name) : SRepo × Out :=
+  if !(tg.all (sClassIn s ni.cls)) then (s, errClass)
+  else if !(tg.all (fun n => sExists s n (keyIn path n))) then (s, errNotFound)
+  else (sReplaceAll s path ni tg, .unit)
+
+theorem any_not_eq_not_all {α} (f : α → Bool) (l : List α) : l.any (fun x => !f x) = !l.all f := by
+  induction l with
+  | nil => rfl
+  | cons a t ih => simp only [List.any_cons, List.all_cons, ih, Bool.not_and]
+
+theorem setInsts_congr (r : Repo) {a b : Name} (h : lower a = lower b) (f : List Stored → List Stored) :
+    setInsts r a f = setInsts r b f := by
+  unfold setInsts
+  congr 1
+  apply List.map_congr_left
+  intro e _
+  rw [nameEq_congr_right h]
+
+theorem findNs_congr (r : Repo) {a b : Name} (h : lower a = lower b) : findNs r a = findNs r b := by
+  unfold findNs
+  congr 1
+  funext e
+  exact nameEq_congr_right h _
+
+theorem modify_tail (r : Repo) (hinv : Inv r) (path : Path) (ns : Name) (e : NsEntry) (hns : findNs r ns = some e)
+    (st : Stored) (hl : lookupInst e.insts (reqPath ns path) = some st)
+    (c : Cls) (hstc : findCls e.classes st.key.cls = some c)
+    (ni : Inst) (hnc : ni.cls = st.inst.cls)
+    (hprops : ∀ n, (findProp st.inst.props n).isSome = true → (findProp ni.props n).isSome = true)
+    (others : List Name) (hex : ∀ n ∈ others, (findNs r n).isSome = true)
+    (hdist : NamesDistinct (others ++ [ns]))
+    (hsame : ∀ n ∈ others ++ [ns], ∀ e', findNs r n = some e' → ∀ c', findCls e'.classes c.name = some c' → c' = c)
+    (hrefs : c.isAssoc = true → ∀ p ∈ ni.props, ∀ m, refNs p.val = some m → m.isEmpty = false →
+      (findNs r m).isSome = true) :
+    let res := if others.isEmpty = true then
+        (if (lookupInst e.insts st.path).isNone = true then (r, Out.err PyExc.keyError)
+         else (setInsts r ns (fun l => replaceInst l st.path st.path ni), Out.unit))
+      else modifyMulti r st.path ni others
+    normOut res.2 = (specModifyTail (abs r) path ni (others ++ [ns])).2 ∧
+    abs res.1 = (specModifyTail (abs r) path ni (others ++ [ns])).1 ∧ Inv res.1 := by
+  intro res
+  have hmem := findNs_mem hns
+  have hie := hinv.entries e hmem.1
+  have ⟨hst, hstk⟩ := lookupInst_some hl
+  have hsp : normPath st.path = normPath (reqPath ns path) := (hie.pathKey st hst).trans hstk
+  have hlk : lookupInst e.insts st.path = some st := by rw [lookupInst_congr e.insts hsp]; exact hl
+  -- the namespace written in the stored path
+  obtain ⟨n0, hn0, hl0⟩ : ∃ n0, st.path.ns = some n0 ∧ lower n0 = lower ns := by
+    have := congrArg Path.ns hsp
+    simp only [normPath, reqPath, Option.map_some] at this
+    cases hh : st.path.ns with
+    | none => simp [hh] at this
+    | some n0 => simp [hh] at this; exact ⟨n0, rfl, this⟩
+  have hpeta : ({ st.path with ns := some n0 } : Path) = st.path := by
+    cases hp : st.path; simp_all
+  have hq : ∀ n, normPath { st.path with ns := some n } = keyIn path n := by
+    intro n
+    rw [normPath_set_ns, hsp]; rfl
+  have hcls0 : lower st.key.cls = lower c.name := (findCls_some hstc).2.symm
+  have hnicls : findCls e.classes ni.cls = some c := by
+    rw [hnc, findCls_congr e.classes (hie.instCls st hst)]; exact hstc
+  have hex0 : ∀ n ∈ others ++ [n0], (findNs r n).isSome = true := by
+    intro n hn
+    rcases List.mem_append.mp hn with h1 | h1
+    · exact hex n h1
+    · simp at h1; subst h1; rw [findNs_congr r hl0, hns]; rfl
+  have hres : res = (match firstErr (classIn r ni.cls) (others ++ [n0]) with
+      | some ex => (r, Out.err ex)
+      | none =>
+        if (others ++ [n0]).any (fun n => !existsIn r n { st.path with ns := some n }) then (r, errNotFound)
+        else (replaceAll r st.path ni (others ++ [n0]), Out.unit)) := by
+    simp only [res]
+    by_cases hemp : others.isEmpty = true
+    · have : others = [] := by simpa using hemp
+      subst this
+      have hci : classIn r ni.cls n0 = none := by
+        unfold classIn; rw [findNs_congr r hl0, hns]; simp [hnicls]
+      have hexi : existsIn r n0 st.path = true := by
+        rw [existsIn, findNs_congr r hl0, hns]; simp [hlk]
+      simp only [List.isEmpty_nil, ↓reduceIte, List.nil_append, firstErr, hci, hlk, Option.isNone_some,
+        Bool.false_eq_true, List.any_cons, List.any_nil, Bool.or_false, hexi, Bool.not_true, replaceAll, hpeta,
+        setInsts_congr r hl0]
+    · simp only [hemp, Bool.false_eq_true, ↓reduceIte, modifyMulti, hn0, Option.getD_some]
+      rfl
+  rw [hres]
+  unfold specModifyTail
+  rw [classIn_spec r ni.cls _ hex0,
+    all_congr_last (sClassIn (abs r) ni.cls) (sClassIn_congr (abs r) ni.cls hl0) others]
+  by_cases hall : (others ++ [ns]).all (sClassIn (abs r) ni.cls) = true
+  · simp only [hall, ↓reduceIte, Bool.not_true, Bool.false_eq_true]
+    have hany : (others ++ [n0]).any (fun n => !existsIn r n { st.path with ns := some n }) =
+        !(others ++ [ns]).all (fun n => sExists (abs r) n (keyIn path n)) := by
+      rw [any_not_eq_not_all]
+      congr 1
+      have : (fun n => existsIn r n { st.path with ns := some n }) = fun n => sExists (abs r) n (keyIn path n) := by
+        funext n; rw [← hq n, sExists_abs]
+      rw [this]
+      apply all_congr_last
+      rw [sExists_congr (abs r) hl0, keyIn_congr path hl0]
+    rw [hany]
+    by_cases hexi : (others ++ [ns]).all (fun n => sExists (abs r) n (keyIn path n)) = true
+    · simp only [hexi, Bool.not_true, Bool.false_eq_true, ↓reduceIte, normOut, true_and]
+      refine ⟨?_, ?_⟩
+      · rw [abs_replaceAll st.path path ni hq, sReplaceAll_congr_last path ni hl0]
+      · rw [replaceAll_eq_foldNs]
+        apply inv_foldNs _ _ (namesDistinct_congr_last hl0.symm hdist) r hinv
+        intro n hn e' he'
+        have hn' : n ∈ others ++ [ns] ∨ n = n0 := by
+          rcases List.mem_append.mp hn with h1 | h1
+          · exact Or.inl (List.mem_append.mpr (Or.inl h1))
+          · exact Or.inr (by simpa using h1)
+        have hsame' : ∀ c', findCls e'.classes c.name = some c' → c' = c := by
+          intro c' hc'
+          rcases hn' with h1 | h1
+          · exact hsame n h1 e' he' c' hc'
+          · subst h1
+            rw [findNs_congr r hl0] at he'
+            exact hsame ns (by simp) e' he' c' hc'
+        apply invE_replace2 (hinv.entries e' (findNs_mem he').1)
+        · intro s hs hk
+          have h1 := normPath_eq_cls hk
+          simp only at h1
+          rw [hnc, hie.instCls st hst, h1]
+          exact (normPath_eq_cls (hie.pathKey st hst)).symm
+        · intro s hs hk c' hc' d hd
+          have h1 : lower s.key.cls = lower c.name := by
+            have := normPath_eq_cls hk
+            simp only at this
+            rw [this, normPath_eq_cls (hie.pathKey st hst)]; exact hcls0
+          rw [findCls_congr e'.classes h1] at hc'
+          have := hsame' c' hc'
+          subst this
+          exact hprops _ (hie.hasKeys st hst c' hstc d hd)
+        · intro s hs hk c' hc' hca p hp m hm hne
+          have h1 : lower s.key.cls = lower c.name := by
+            have := normPath_eq_cls hk
+            simp only at this
+            rw [this, normPath_eq_cls (hie.pathKey st hst)]; exact hcls0
+          rw [findCls_congr e'.classes h1] at hc'
+          have := hsame' c' hc'
+          subst this
+          exact hrefs hca p hp m hm hne
+    · simp [hexi, normOut, errNotFound, hinv]
+  · simp [hall, normOut, errClass, hinv]
+
+theorem findNs_isSome_congr (r : Repo) {a b : Name} (h : lower a = lower b) :
+    (findNs r a).isSome = (findNs r b).isSome := by rw [findNs_congr r h]
+
+theorem refNs_normVal {a b : Val} (h : normVal a = normVal b) : (refNs a).map lower = (refNs b).map lower := by
+  cases a with
+  | null => cases b <;> simp_all [normVal, refNs]
+  | arr xs => cases b <;> simp_all [normVal, refNs]
+  | emb x y z => cases b <;> simp_all [normVal, refNs]
+  | one k =>
+    cases b with
+    | one k' =>
+      simp only [normVal, Val.one.injEq] at h
+      cases k with
+      | sc s => cases k' <;> simp_all [normKV, refNs]
+      | ref q =>
+        cases k' with
+        | sc s => simp_all [normKV]
+        | ref q' =>
+          simp only [normKV, KV.ref.injEq] at h
+          have := congrArg Path0.ns h
+          simpa [normPath0, refNs] using this
+    | null => simp_all [normVal]
+    | arr xs => simp_all [normVal]
+    | emb x y z => simp_all [normVal]
+
+theorem val_ref_of_refNs {v : Val} {m : Name} (h : refNs v = some m) : ∃ q, v = .one (.ref q) ∧ q.ns = some m := by
+  cases v with
+  | null => simp [refNs] at h
+  | arr _ => simp [refNs] at h
+  | emb _ _ _ => simp [refNs] at h
+  | one k =>
+    cases k with
+    | sc _ => simp [refNs] at h
+    | ref q => exact ⟨q, rfl, by simpa [refNs] using h⟩
+
+theorem isEmpty_lower (m : Name) : (lower m).isEmpty = m.isEmpty := by
+  unfold lower; cases m <;> rfl
+
+theorem updated_refvals_exist {r : Repo} (hinv : Inv r) {e : NsEntry} (he : e ∈ r.nss)
+    {st : Stored} (hst : st ∈ e.insts) {c : Cls} (hstc : findCls e.classes st.key.cls = some c) (hca : c.isAssoc = true)
+    {ps : List PropV} (hvw : ∀ p ∈ ps, (∃ q, p.val = .one (.ref q)) → isRef p = true)
+    (hcm : checkRefsModify r st.inst.props ps = none) :
+    ∀ p ∈ updateProps st.inst.props ps, ∀ m, refNs p.val = some m → m.isEmpty = false → (findNs r m).isSome = true := by
+  intro p hp m hm hne
+  have hie := hinv.entries e he
+  rcases mem_updateProps hp with h1 | h1
+  · exact hie.refVals st hst c hstc hca p h1 m hm hne
+  · obtain ⟨q, hv, hqn⟩ := val_ref_of_refNs hm
+    have hr := hvw p h1 ⟨q, hv⟩
+    have hf := firstErr_none (by unfold checkRefsModify at hcm; exact hcm) p h1
+    simp only [hr, ↓reduceIte, hv] at hf
+    cases hfp : findProp st.inst.props p.name with
+    | none =>
+      simp only [hfp] at hf
+      exact checkEndpoint_ns hf hqn
+    | some sp =>
+      simp only [hfp] at hf
+      by_cases hne' : valNe (Val.one (KV.ref q)) sp.val = true
+      · simp only [hne', ↓reduceIte] at hf
+        exact checkEndpoint_ns hf hqn
+      · have heq : normVal (Val.one (KV.ref q)) = normVal sp.val := by
+          unfold valNe at hne'; simpa using hne'
+        have := refNs_normVal heq
+        have h3 : refNs (Val.one (KV.ref q)) = q.ns := rfl
+        rw [h3, hqn] at this
+        simp only [Option.map_some] at this
+        cases hsn : refNs sp.val with
+        | none => rw [hsn] at this; simp at this
+        | some m' =>
+          rw [hsn] at this
+          simp only [Option.map_some, Option.some.injEq] at this
+          have hne2 : m'.isEmpty = false := by
+            rw [← isEmpty_lower, ← this, isEmpty_lower]; exact hne
+          have := hie.refVals st hst c hstc hca sp (findProp_some hfp).1 m' hsn hne2
+          rw [findNs_isSome_congr r ‹lower m = lower m'›]; exact this
+
+theorem valWF_reduced {c : Cls} {ps : List PropV} {pl : Option (List Name)}
+    (hd : ∀ d ∈ c.props, ∀ q, d.dflt ≠ .one (.ref q))
+    (h : ∀ p ∈ ps, (∃ q, p.val = .one (.ref q)) → isRef p = true) :
+    ∀ p ∈ adjustNames c (reduceByPl c ps pl), (∃ q, p.val = .one (.ref q)) → isRef p = true := by
+  intro p hp hq
+  unfold adjustNames at hp
+  obtain ⟨p0, hp0, rfl⟩ := List.mem_map.mp hp
+  have hs := adjustName_same c p0
+  rw [hs.2.2.2] at hq
+  have hr0 : isRef p0 = true := by
+    rcases mem_reduceByPl hp0 with h1 | ⟨d, hdm, rfl⟩
+    · exact h p0 h1 hq
+    · obtain ⟨q, hq⟩ := hq
+      exact absurd hq (hd d hdm q)
+  unfold isRef at hr0 ⊢; rw [hs.2.1]; exact hr0
+
+theorem sim_modify'' (r : Repo) (path : Path) (inst : Inst) (pl : Option (List Name))
     (ht : Tame r (.modify path inst pl)) (hinv : Inv r) :
     normOut (stepModify r path inst pl).2 = (specModify (abs r) path inst pl).2
       ∧ abs (stepModify r path inst pl).1 = (specModify (abs r) path inst pl).1
@@ -1678,67 +2448,46 @@ theorem sim_modify' (r : Repo) (path : Path) (inst : Inst) (pl : Option (List Na
             · simp only [h1, ↓reduceIte, Bool.not_true, Bool.false_eq_true]
               by_cases h2 : ((pl.getD []).all (sPlKeyOk c st.inst.props inst.props)) = true
               · simp only [h2, ↓reduceIte, Bool.not_true, Bool.false_eq_true]
-                -- association part
-                have hassoc : c.isAssoc = true →
-                    RefWF (adjustNames c (reduceByPl c inst.props pl)) ∧
-                    multiNs (updateProps st.inst.props (adjustNames c (reduceByPl c inst.props pl)))
-                      (path.ns.getD r.dflt) = [] := by
-                  intro hca
-                  rcases ht with hna | ⟨hdn, hwf, hloc⟩
+                have hself : ∀ e', findNs r (path.ns.getD r.dflt) = some e' → ∀ c', findCls e'.classes c.name = some c' → c' = c := by
+                  intro e' he' c' hc'
+                  rw [hns] at he'; cases he'
+                  rw [findCls_self hcl] at hc'; cases hc'; rfl
+                by_cases hca : c.isAssoc = true
+                · rcases ht with hna | ⟨hdn, hcoh, hwf, hvw⟩
                   · have := hna e hmem.1 c (findCls_some hcl).1; rw [this] at hca; cases hca
                   · have hdc := hdn e hmem.1 c (findCls_some hcl).1
-                    refine ⟨refWF_reduced hdc hwf, local_update ?_ (local_reduced hdc hloc)⟩
-                    rw [multiNs_nil_congr hmem.2.symm]
-                    exact hie.localRefs st hst c hstc hca
-                have hsp : normPath st.path = normPath (reqPath (path.ns.getD r.dflt) path) :=
-                  (hie.pathKey st hst).trans hstk
-                have hlk : lookupInst e.insts st.path = some st := by
-                  rw [lookupInst_congr e.insts hsp]; exact hl
-                have hci : sClassIn (abs r) st.inst.cls (path.ns.getD r.dflt) = true := by
-                  unfold sClassIn; rw [sFindNs_abs, hns]; simp only [Option.map_some, hc]
-                  rw [findCls_congr e.classes ((hie.instCls st hst).trans hcls), hcl]; rfl
-                have hex : sExists (abs r) (path.ns.getD r.dflt) (keyIn path (path.ns.getD r.dflt)) = true := by
-                  unfold sExists; rw [sFindNs_abs, hns]; simp only [Option.map_some]
-                  rw [absNs_map, keyIn_eq, sLookup_abs, hl]; rfl
-                -- the common tail: single-namespace replacement
-                have tail : ∀ (hoth : (if c.isAssoc then
-                        multiNs (updateProps st.inst.props (adjustNames c (reduceByPl c inst.props pl))) (path.ns.getD r.dflt)
-                      else []) = []),
-                    abs (setInsts r (path.ns.getD r.dflt) (fun l => replaceInst l st.path st.path
-                      { cls := st.inst.cls, props := updateProps st.inst.props (adjustNames c (reduceByPl c inst.props pl)) })) =
-                    sReplaceAll (abs r) path
-                      { cls := st.inst.cls, props := updateProps st.inst.props (adjustNames c (reduceByPl c inst.props pl)) }
-                      [path.ns.getD r.dflt] ∧
-                    Inv (setInsts r (path.ns.getD r.dflt) (fun l => replaceInst l st.path st.path
-                      { cls := st.inst.cls, props := updateProps st.inst.props (adjustNames c (reduceByPl c inst.props pl)) })) := by
-                  intro hoth
-                  refine ⟨?_, ?_⟩
-                  · simp only [sReplaceAll]
-                    apply abs_setInsts
-                    intro l
-                    rw [replaceInst_abs l st.path _ hsp, keyIn_eq]
-                  · apply inv_setInsts hinv
-                    intro e' he' hn' hi'
-                    have hee : e' = e := findNs_unique hinv.nsUniq hns he' hn'
-                    subst hee
-                    refine invE_replace hi' st hst _ rfl (fun n hn => findProp_updateProps_isSome _ _ n hn) ?_
-                    intro c' hc' hca'
-                    rw [hstc] at hc'
-                    cases hc'
-                    exact (multiNs_nil_congr hmem.2.symm _).mp (hassoc hca').2
-                by_cases hca : c.isAssoc = true
-                · obtain ⟨hwf, hloc⟩ := hassoc hca
-                  simp only [hca, ↓reduceIte, Bool.true_and, checkRefsModify_spec r _ _ hwf]
-                  by_cases hrk : (adjustNames c (reduceByPl c inst.props pl)).all (sRefOk (abs r) st.inst.props) = true
-                  · simp only [hrk, ↓reduceIte, Bool.not_true, Bool.false_eq_true, hloc, List.isEmpty_nil, targets,
-                      List.nil_append, List.all_cons, List.all_nil, Bool.and_true, hci, hex, hlk, Option.isNone_some,
-                      normOut, true_and]
-                    exact tail (by simp [hca, hloc])
-                  · simp [hrk, normOut, errParam, hinv]
-                · simp only [hca, Bool.false_eq_true, ↓reduceIte, Bool.false_and, targets, List.nil_append,
-                    List.isEmpty_nil, List.all_cons, List.all_nil, Bool.and_true, hci, hex, hlk, Option.isNone_some,
-                    Bool.not_true, normOut, true_and]
-                  exact tail (by simp [hca])
+                    have hwf' := refWF_reduced (pl := pl) hdc.1 hwf
+                    have hvw' := valWF_reduced (pl := pl) hdc.2 hvw
+                    simp only [hca, ↓reduceIte, Bool.true_and, checkRefsModify_spec r _ _ hwf']
+                    by_cases hrk : (adjustNames c (reduceByPl c inst.props pl)).all (sRefOk (abs r) st.inst.props) = true
+                    · simp only [hrk, ↓reduceIte, Bool.not_true, Bool.false_eq_true, targets]
+                      have hcm : checkRefsModify r st.inst.props (adjustNames c (reduceByPl c inst.props pl)) = none := by
+                        rw [checkRefsModify_spec r _ _ hwf', hrk]; rfl
+                      have hrv := updated_refvals_exist hinv hmem.1 hst hstc hca hvw' hcm
+                      have := modify_tail r hinv path (path.ns.getD r.dflt) e hns st hl c hstc
+                        { cls := st.inst.cls, props := updateProps st.inst.props (adjustNames c (reduceByPl c inst.props pl)) }
+                        rfl (fun n hn => findProp_updateProps_isSome _ _ n hn)
+                        (multiNs (updateProps st.inst.props (adjustNames c (reduceByPl c inst.props pl))) (path.ns.getD r.dflt))
+                        (exists_of_mem_multiNs hrv _)
+                        (namesDistinct_targets _ _)
+                        (by
+                          intro n hn e' he' c' hc'
+                          exact (hcoh e hmem.1 e' (findNs_mem he').1 c.name c c' (findCls_self hcl) hc').symm)
+                        (fun _ => hrv)
+                      simp only [specModifyTail] at this
+                      exact this
+                    · simp [hrk, normOut, errParam, hinv]
+                · have := modify_tail r hinv path (path.ns.getD r.dflt) e hns st hl c hstc
+                    { cls := st.inst.cls, props := updateProps st.inst.props (adjustNames c (reduceByPl c inst.props pl)) }
+                    rfl (fun n hn => findProp_updateProps_isSome _ _ n hn) [] (by simp) (by simp [NamesDistinct])
+                    (by
+                      intro n hn e' he' c' hc'
+                      simp at hn; subst hn
+                      exact hself e' he' c' hc')
+                    (fun h => absurd h hca)
+                  simp only [hca, Bool.false_eq_true, ↓reduceIte, Bool.false_and, targets, List.nil_append]
+                  simp only [specModifyTail, List.nil_append, List.isEmpty_nil, ↓reduceIte] at this
+                  exact this
               · simp [h2, normOut, errParam, hinv]
             · simp [h1, normOut, errParam, hinv]
   · simp [hne, normOut, errParam, hinv]
@@ -1847,20 +2596,26 @@ theorem refDefaults_of_sameSchema {r r' : Repo} (h : SameSchema r r') (hd : RefD
   obtain ⟨e, he, hcl, _⟩ := classes_of_sameSchema h he'
   exact hd e he c (hcl ▸ hc)
 
-theorem opLocal_of_sameSchema {r r' : Repo} (h : SameSchema r r') (op : Op) (ho : OpLocal r op) : OpLocal r' op := by
-  cases op <;> simp only [OpLocal, effNs, h.1] at ho ⊢ <;> exact ho
+theorem coherent_of_sameSchema {r r' : Repo} (h : SameSchema r r') (hd : SchemaCoherent r) : SchemaCoherent r' := by
+  intro e1' he1' e2' he2' n c1 c2 h1 h2
+  obtain ⟨e1, he1, hcl1, _⟩ := classes_of_sameSchema h he1'
+  obtain ⟨e2, he2, hcl2, _⟩ := classes_of_sameSchema h he2'
+  exact hd e1 he1 e2 he2 n c1 c2 (hcl1 ▸ h1) (hcl2 ▸ h2)
 
-/-- hypothesis of the partial theorems for a whole history -/
+
+/-! ### one step, whole histories -/
+
+/-- hypothesis of the refinement theorems for a whole history -/
 def TameRun (r : Repo) (ops : List Op) : Prop :=
-  NoAssoc r ∨ (RefDefaultsNullRepo r ∧ ∀ op ∈ ops, OpLocal r op)
+  NoAssoc r ∨ (RefDefaultsNullRepo r ∧ SchemaCoherent r ∧ ∀ op ∈ ops, OpWF op)
 
-theorem sim_step' (r : Repo) (op : Op) (ht : Tame r op) (hinv : Inv r) :
+theorem sim_step'' (r : Repo) (op : Op) (ht : Tame r op) (hinv : Inv r) :
     normOut (step r op).2 = (sstep (abs r) op).2 ∧ abs (step r op).1 = (sstep (abs r) op).1
       ∧ Inv (step r op).1 := by
   cases op with
-  | create ns i => exact sim_create' r ns i ht hinv
-  | modify p i pl => exact sim_modify' r p i pl ht hinv
-  | delete p => exact sim_delete' r p ht hinv
+  | create ns i => exact sim_create'' r ns i ht hinv
+  | modify p i pl => exact sim_modify'' r p i pl ht hinv
+  | delete p => exact sim_delete'' r p hinv
   | get p pl =>
     have h := sim_get r p pl
     simp only [step, sstep]
@@ -1874,7 +2629,7 @@ theorem sim_step' (r : Repo) (op : Op) (ht : Tame r op) (hinv : Inv r) :
     simp only [step, sstep]
     rw [h.2.1, h.2.2]; exact ⟨h.1, rfl, hinv⟩
 
-theorem sim_run' (ops : List Op) : ∀ (r : Repo), TameRun r ops → Inv r →
+theorem sim_run'' (ops : List Op) : ∀ (r : Repo), TameRun r ops → Inv r →
     (Pywbem.Model.Store.run r ops).2.map normOut = (Pywbem.Model.StoreSpec.run (abs r) ops).2
       ∧ abs (Pywbem.Model.Store.run r ops).1 = (Pywbem.Model.StoreSpec.run (abs r) ops).1
       ∧ Inv (Pywbem.Model.Store.run r ops).1 := by
@@ -1883,143 +2638,18 @@ theorem sim_run' (ops : List Op) : ∀ (r : Repo), TameRun r ops → Inv r →
   | cons op t ih =>
     intro r ht hinv
     have ht1 : Tame r op := by
-      rcases ht with h | ⟨h1, h2⟩
+      rcases ht with h | ⟨h1, h2, h3⟩
       · exact Or.inl h
-      · exact Or.inr ⟨h1, h2 op (by simp)⟩
-    obtain ⟨h1, h2, h3⟩ := sim_step' r op ht1 hinv
+      · exact Or.inr ⟨h1, h2, h3 op (by simp)⟩
+    obtain ⟨h1, h2, h3⟩ := sim_step'' r op ht1 hinv
     have hss := step_sameSchema r op
     have ht2 : TameRun (step r op).1 t := by
-      rcases ht with h | ⟨h1', h2'⟩
+      rcases ht with h | ⟨h1', h2', h3'⟩
       · exact Or.inl (noAssoc_of_sameSchema hss h)
-      · exact Or.inr ⟨refDefaults_of_sameSchema hss h1', fun o ho => opLocal_of_sameSchema hss o (h2' o (by simp [ho]))⟩
+      · exact Or.inr ⟨refDefaults_of_sameSchema hss h1', coherent_of_sameSchema hss h2', fun o ho => h3' o (by simp [ho])⟩
     obtain ⟨i1, i2, i3⟩ := ih (step r op).1 ht2 h3
     simp only [Pywbem.Model.Store.run, Pywbem.Model.StoreSpec.run, List.map_cons]
     rw [← h2, ← h1]
     exact ⟨by rw [i1], i2, i3⟩
-
-/-! ### map laws with association classes -/
-
-/-- what a successful creation does, also for association classes whose ends stay in the namespace -/
-theorem stepCreate_ok' {r r' : Repo} {nsArg : Option Name} {inst : Inst} {p : Path}
-    (ht : Tame r (.create nsArg inst)) (h : stepCreate r nsArg inst = (r', .path p)) :
-    ∃ e c, findNs r (effNs r nsArg) = some e ∧ findCls e.classes inst.cls = some c ∧
-      (inst.props.all (validProp e.classes c)) = true ∧
-      (c.isAssoc = true → checkRefsCreate r (adjustNames c inst.props) = none ∧
-         multiNs (adjustNames c inst.props) (effNs r nsArg) = []) ∧
-      newInstancePath c (adjustNames c inst.props) (effNs r nsArg) = .ok p ∧
-      lookupInst e.insts p = none ∧
-      r' = setInsts r (effNs r nsArg) (fun l => l ++ [{ key := p, path := p, inst := { cls := inst.cls, props := adjustNames c inst.props } }]) := by
-  unfold stepCreate at h
-  cases hns : findNs r (effNs r nsArg) with
-  | none => simp [hns, errNs] at h
-  | some e =>
-    cases hcl : findCls e.classes inst.cls with
-    | none => simp [hns, hcl, errClass] at h
-    | some c =>
-      by_cases hv : (inst.props.all (validProp e.classes c)) = true
-      · simp only [hns, hcl, hv, Bool.not_true, Bool.false_eq_true, ↓reduceIte] at h
-        have hloc : c.isAssoc = true → multiNs (adjustNames c inst.props) (effNs r nsArg) = [] := by
-          intro hca
-          rcases ht with hna | ⟨_, _, hl⟩
-          · have := hna e (findNs_mem hns).1 c (findCls_some hcl).1; rw [this] at hca; cases hca
-          · exact (multiNs_adjustNames c _ _).mpr hl
-        have single : ∀ (hs : createSingle r c { cls := inst.cls, props := adjustNames c inst.props } (effNs r nsArg) = (r', .path p)),
-            newInstancePath c (adjustNames c inst.props) (effNs r nsArg) = .ok p ∧ lookupInst e.insts p = none ∧
-            r' = setInsts r (effNs r nsArg) (fun l => l ++ [{ key := p, path := p, inst := { cls := inst.cls, props := adjustNames c inst.props } }]) := by
-          intro hs
-          unfold createSingle at hs
-          cases hnp : newInstancePath c (adjustNames c inst.props) (effNs r nsArg) with
-          | error ex => simp [hnp] at hs
-          | ok path =>
-            simp only [hnp, addNew, hns] at hs
-            cases hl : lookupInst e.insts path with
-            | some st => simp [hl, errExists] at hs
-            | none =>
-              simp only [hl, Option.isSome_none, Bool.false_eq_true, ↓reduceIte, Prod.mk.injEq, Out.path.injEq] at hs
-              obtain ⟨h1, h2⟩ := hs
-              subst h2
-              exact ⟨rfl, hl, h1.symm⟩
-        by_cases hca : c.isAssoc = true
-        · simp only [hca, ↓reduceIte] at h
-          cases hcr : checkRefsCreate r (adjustNames c inst.props) with
-          | some ex => simp [hcr] at h
-          | none =>
-            simp only [hcr, hloc hca, List.isEmpty_nil, ↓reduceIte] at h
-            obtain ⟨a, b, c'⟩ := single h
-            exact ⟨e, c, rfl, hcl, hv, fun _ => ⟨hcr, hloc hca⟩, a, b, c'⟩
-        · simp only [hca, Bool.false_eq_true, ↓reduceIte] at h
-          obtain ⟨a, b, c'⟩ := single h
-          exact ⟨e, c, rfl, hcl, hv, fun x => absurd x hca, a, b, c'⟩
-      · simp [hns, hcl, hv, errParam] at h
-
-theorem get_after_create' {r r' : Repo} {nsArg : Option Name} {inst : Inst} {p : Path} (pl : Option (List Name))
-    (ht : Tame r (.create nsArg inst)) (h : stepCreate r nsArg inst = (r', .path p)) :
-    ∃ c, (stepGet r' p pl).2 = .inst { cls := inst.cls, path := p, props := filterProps pl (adjustNames c inst.props) } := by
-  obtain ⟨e, c, hns, hcl, _, _, hnp, hl, rfl⟩ := stepCreate_ok' ht h
-  obtain ⟨hh, hn, hpc, _⟩ := newInstancePath_ok hnp
-  refine ⟨c, ?_⟩
-  unfold stepGet
-  have he : effNs r p.ns = effNs r nsArg := by simp [effNs, hn]
-  simp only [effNs_setInsts, he, findNs_setInsts, hns, Option.map_some, (nameEq_iff.mpr (findNs_mem hns).2), ↓reduceIte]
-  have hrp : reqPath (effNs r nsArg) p = p := path_eta_of hh hn
-  simp only [hrp, hpc, findCls_self hcl, Option.isNone_some, Bool.false_eq_true, ↓reduceIte]
-  rw [lookupInst_append_fresh hl _ rfl]
-
-theorem stepDelete_ok' {r r' : Repo} {path : Path} (hinv : Inv r)
-    (h : stepDelete r path = (r', .unit)) :
-    ∃ e c st, findNs r (effNs r path.ns) = some e ∧ findCls e.classes path.cls = some c ∧
-      lookupInst e.insts (reqPath (effNs r path.ns) path) = some st ∧
-      r' = setInsts r (effNs r path.ns) (fun l => deleteInst l (reqPath (effNs r path.ns) path)) := by
-  unfold stepDelete at h
-  have hp : (reqPath (effNs r path.ns) path).cls = path.cls := rfl
-  cases hns : findNs r (effNs r path.ns) with
-  | none => simp [hns, errNs] at h
-  | some e =>
-    cases hcl : findCls e.classes path.cls with
-    | none => simp [hns, hp, hcl, errClass] at h
-    | some c =>
-      cases hl : lookupInst e.insts (reqPath (effNs r path.ns) path) with
-      | none => simp [hns, hp, hcl, hl, errNotFound] at h
-      | some st =>
-        have hmem := findNs_mem hns
-        have hie := hinv.entries e hmem.1
-        have ⟨hst, hstk⟩ := lookupInst_some hl
-        have hoth : (if c.isAssoc then multiNs st.inst.props (effNs r path.ns) else []) = [] := by
-          by_cases hca : c.isAssoc = true
-          · simp only [hca, ↓reduceIte]
-            rw [multiNs_nil_congr hmem.2.symm]
-            refine hie.localRefs st hst c ?_ hca
-            rw [findCls_congr e.classes (normPath_eq_cls hstk)]; exact hcl
-          · simp [hca]
-        simp only [hns, hp, hcl, hl, hoth, List.isEmpty_nil, ↓reduceIte, Prod.mk.injEq, and_true] at h
-        exact ⟨e, c, st, by first | rfl | assumption, by first | rfl | assumption, by first | rfl | assumption, h.symm⟩
-
-theorem get_after_delete' {r r' : Repo} {path : Path} (pl : Option (List Name))
-    (hinv : Inv r) (h : stepDelete r path = (r', .unit)) :
-    (stepGet r' path pl).2 = errNotFound := by
-  obtain ⟨e, c, st, hns, hcl, hl, rfl⟩ := stepDelete_ok' hinv h
-  unfold stepGet
-  have hp : (reqPath (effNs r path.ns) path).cls = path.cls := rfl
-  simp only [effNs_setInsts, findNs_setInsts, hns, Option.map_some, (nameEq_iff.mpr (findNs_mem hns).2), ↓reduceIte, hp, hcl,
-    Option.isNone_some, Bool.false_eq_true, lookupInst_delete]
-
-theorem get_frame_delete' {r r' : Repo} {path q : Path} (pl : Option (List Name)) (hinv : Inv r)
-    (h : stepDelete r path = (r', .unit))
-    (hne : keyIn q (effNs r q.ns) ≠ keyIn path (effNs r path.ns)) :
-    (stepGet r' q pl).2 = (stepGet r q pl).2 := by
-  obtain ⟨e, c, st, hns, hcl, hl, rfl⟩ := stepDelete_ok' hinv h
-  rw [stepGet_snd, stepGet_snd]
-  simp only [effNs_setInsts, findNs_setInsts]
-  cases hq : findNs r (effNs r q.ns) with
-  | none => rfl
-  | some e1 =>
-    simp only [Option.map_some]
-    by_cases hn : nameEq e1.name (effNs r path.ns) = true
-    · simp only [hn, ↓reduceIte, getOut]
-      rw [lookupInst_delete_other]
-      intro heq
-      exact hne heq
-    · simp only [hn]
-      rfl
 
 end Proofs.Store
